@@ -32,7 +32,7 @@ m = {
     "hooks": {"guard": "arr_rs_verif", "enable": "none needed: observation uses public getters, catch_unwind and a watchdog thread (DESIGN.md §10)",
               "baseline_off_cmd": "cd /repo && cargo test --workspace --no-fail-fast --offline", "source_commits": [], "add_only": True},
     "engines": [{"name": "lean4-proof+correspondence", "path": "/verif/check", "serves_properties": sorted(claimed.keys()),
-                 "kind_free_text": "Lean 4 theorems about a hand-written executable model (lean/), tied to /repo on every run by a Rust differential harness (harness/) driving the compiled model over a line protocol"}],
+                 "kind_free_text": "Lean 4 theorems about an executable model (lean/: hand-written, with the core funnel regenerated from the Rust source by tools/rs2lean.py and proved equivalent), tied to /repo on every run by a Rust differential harness (harness/) driving the compiled model over a line protocol"}],
     "checks": checks,
     "notes": "See DESIGN.md. Every check rebuilds the harness against /repo's working tree (cargo path dependency) and re-checks the Lean theorems.",
     "not_applicable": na,
